@@ -118,6 +118,10 @@ STATEMENT_TEMPLATES = [
 	'def {n}({h}) -> int:\n\tif a {1} d:\n\t\tb = a {0} d\n\tfor i in range(2):\n\t\td = i\n\treturn a + b + d\n',
 	# unary sign / inversion of a bool stored in an inferred local
 	'def {n}({h}) -> int:\n\tt = -c\n\tu = ~(a {1} b)\n\treturn (t {0} a) + u\n',
+	# try / raise / except: state written before the raise is kept, the handler runs, the rest of the body is skipped
+	'def {n}({h}) -> int:\n\tx = 0\n\ttry:\n\t\tx = a {0} 1\n\t\tif a {1} b:\n\t\t\traise Exception()\n\t\tx = x {0} d\n\texcept Exception as e:\n\t\tx = x - 1\n\treturn x\n',
+	'def {n}({h}) -> int:\n\tx = d\n\tfor i in range(3):\n\t\ttry:\n\t\t\tif i {1} a:\n\t\t\t\traise Exception()\n\t\t\tx = x {0} i\n\t\texcept Exception as e:\n\t\t\tif c:\n\t\t\t\tbreak\n\t\t\tcontinue\n\treturn x\n',
+	'def {n}({h}) -> int:\n\ttry:\n\t\tif a {1} b:\n\t\t\traise Exception()\n\t\treturn a {0} d\n\texcept Exception as e:\n\t\tif b {2} d:\n\t\t\traise Exception()\n\t\treturn b\n',
 	# raise guarded by a condition
 	'def {n}({h}) -> int:\n\tif a {1} b:\n\t\traise Exception()\n\treturn a {0} d\n',
 	'def {n}({h}) -> int:\n\tx = a {0} b\n\tif not x {1} d or c:\n\t\traise Exception()\n\treturn x\n',
